@@ -47,8 +47,8 @@ class C07(DiffProp):
                  "with the order-free possible-world reference")
     rule = ("states = programs whose default run is correct; transitions = (program, permutation) executions; a "
             "permutation is non-trivial when the printed text differs from the original")
-    families = {"quick": [("F1.3e", 48), ("F3.1", 48), ("F2.2", 16), ("F2.3", 48), ("F1.3s", 48), ("F1.1", 4)],
-                "thorough": [("F3.2", 192), ("F2.3", 64), ("F1.3s", 64), ("F1.2", 128), ("F3.1", 48), ("F2.2", 16), ("F1.1", 4)]}
+    families = {"quick": [("FDUP", 4), ("F1.3e", 48), ("F3.1", 48), ("F2.2", 16), ("F2.3", 48), ("F1.3s", 48), ("F1.1", 4)],
+                "thorough": [("F1.3e", 48), ("FDUP", 4), ("F3.2", 192), ("F2.3", 64), ("F1.3s", 64), ("F1.2", 128), ("F3.1", 48), ("F2.2", 16), ("F1.1", 4)]}
     maxfull = {"quick": 4, "thorough": 5}
     budget = {"quick": 300, "thorough": 2400}
 
